@@ -37,7 +37,10 @@ META["text"] = (
     "mju_cholFactorBand/cholSolveBand/bandMulMatVec, mju_factorLU/solveLU/LU6/solve3, mju_cholFactorSparse/cholSolveSparse/cholUpdateSparse, "
     "mju_factorLUSparse/solveLUSparse (residuals and reconstructions, 1e-9 / 1e-8), mju_eig3 (orthonormal to 1e-9, quaternion consistent, eigenvalues sorted, reconstruction only to ~1e-6 relative: the Jacobi loop stops at rotation angles below ~1.4e-6 by design; "
     "the measured maximum is recorded in the evidence), mju_QCQP/QCQP2/QCQP3 and mju_boxQP (KKT conditions with the routines' own termination tolerances 1e-8 / 1e-7, not 1e-9). "
-    "Not covered at all: mju_cholFactorSymbolic/Numeric, mju_addToSparseMat, mju_addChains, mju_combineSparseInc, mju_addToSclSparseInc, mju_block*, NaN/Inf inputs. "
+    "(8c) mju_addToSparseMat: every packed row of the result = dst row + scl*src row on the sorted union pattern, the same pattern for every row (C23_addToSparseMat_row); tied with nrow 1..6 and identical / nested / disjoint / empty index vectors; "
+    "mju_addChains, mj_mergeSorted, mju_combineSparseInc, mju_addToSclSparseInc are modelled by their definitions and tied (no theorem). "
+    "Oracle only as well: mju_copySparse/zeroSparse, mju_blockDiag/mju_blockDiagSparse (permuted block-diagonal matrices assembled from known blocks), mju_sparseMap, mju_lower2SymMap, mju_cholFactorSymbolic + mju_cholFactorNumeric "
+    "(L'L = H, pattern = elimination fill-in computed independently, LT/LT_map consistent, stack and heap scratch). Not covered at all: NaN/Inf inputs. "
     "Tie: every model function is evaluated at binary64 inside Coq on the inputs of this run and compared with the C function of the working tree compiled twice from the same sources "
     "(scalar build; AVX build with -mavx -DmjUSEPLATFORMSIMD which selects engine_util_*_avx.h): index arrays, return values and copied values exactly, computed values with a scaled tolerance of 2^-30.")
 META["note"] = ("Trusted: Coq kernel + the standard-library real-number axioms listed in trusted_base; hand-written models Model/Sparse.v and Model/Chol.v (arrays as lists, (colind,value) zipped, dense/band matrices as lists of rows); "
@@ -663,6 +666,210 @@ class SqrSparse(Case):
         return f
 
 
+class AddToSparseMat(Case):
+    op, schema, coq_op = "addToSparseMat", "iid", 20
+
+    def line(self):
+        return "addToSparseMat %d %d %s %d %d %s %s %s %s" % (self.n, self.nrow, hx(self.scl), len(self.di), len(self.si), il(self.di), il(self.si),
+                                                             fl(flat(self.D)), fl(flat(self.Sv)))
+
+    def oracle(self, o):
+        idx = sorted(set(self.di) | set(self.si))
+        f = []
+        if o[0] != [len(idx)] or o[1] != idx:
+            return [("mju_addToSparseMat: pattern is the sorted union", idx, o[:2])]
+        got = rowsof(o[2], self.nrow, len(idx)) if idx else [[] for _ in range(self.nrow)]
+        for k in range(self.nrow):
+            dd, ss = dict(zip(self.di, self.D[k])), dict(zip(self.si, self.Sv[k]))
+            e = [dd.get(i, 0.0) + self.scl * ss.get(i, 0.0) for i in idx]
+            if not close(got[k], e, 1e-12):
+                f.append(("mju_addToSparseMat: packed row %d = dst row + scl * src row" % k, e, got[k]))
+                break
+        return f
+
+    def coq(self, o):
+        return cq(20, NOS, [[self.nrow], self.di, self.si, o[0], o[1]], [[self.scl], flat(self.D), flat(self.Sv), o[2]], [], [])
+
+
+class AddChains(Case):
+    op, schema, coq_op = "addChains", "iiii", 21
+
+    def line(self):
+        return "addChains %d %d %d %s %s" % (self.n, len(self.c1), len(self.c2), il(self.c1), il(self.c2))
+
+    def oracle(self, o):
+        idx = sorted(set(self.c1) | set(self.c2))
+        f = []
+        if o[0] != [len(idx)] or o[1] != idx:
+            f.append(("mju_addChains = sorted union of the chains", idx, o[:2]))
+        if o[2] != [len(idx)] or o[3] != idx:
+            f.append(("mj_mergeSorted = sorted union of the chains", idx, o[2:4]))
+        return f
+
+    def coq(self, o):
+        return cq(21, NOS, [self.c1, self.c2, o[1], o[3]], [], [], [])
+
+
+class Inc(Case):
+    op, schema, coq_op = "inc", "dd", 22
+
+    def line(self):
+        return "inc %s %s %d %d %d %s %s %s %s" % (hx(self.a), hx(self.b), self.n, len(self.di), len(self.si), il(self.di), fl(self.dv), il(self.si), fl(self.sv))
+
+    def oracle(self, o):
+        ss = dict(zip(self.si, self.sv))
+        e1 = [self.a * v + self.b * ss.get(i, 0.0) for i, v in zip(self.di, self.dv)]
+        e2 = [v + self.b * ss.get(i, 0.0) for i, v in zip(self.di, self.dv)]
+        f = []
+        if not close(o[0], e1, 1e-12):
+            f.append(("mju_combineSparseInc: dst = a*dst + b*src at the indices of dst", e1, o[0]))
+        if not close(o[1], e2, 1e-12):
+            f.append(("mju_addToSclSparseInc: dst += scl*src at the indices of dst", e2, o[1]))
+        return f
+
+    def coq(self, o):
+        return cq(22, ents(self.di, self.dv), [self.si], [self.sv, [self.a, self.b], o[0], o[1]], [], [])
+
+
+class CopyZero(Case):
+    op, schema = "copyzero", "dd"
+
+    def line(self):
+        return "copyzero %s %s %d %s" % (self.S.text(), fl(self.init), len(self.sel), il(self.sel))
+
+    def oracle(self, o):
+        e1, e2 = list(self.init), list(self.init)
+        for r in self.sel:
+            for k in range(self.S.rownnz[r]):
+                e1[self.S.rowadr[r] + k] = self.S.val[self.S.rowadr[r] + k]
+                e2[self.S.rowadr[r] + k] = 0.0
+        f = []
+        if [hx(x) for x in o[0]] != [hx(x) for x in e1]:
+            f.append(("mju_copySparse copies exactly the selected rows", e1, o[0]))
+        if [hx(x) for x in o[1]] != [hx(x) for x in e2]:
+            f.append(("mju_zeroSparse clears exactly the selected rows", e2, o[1]))
+        return f
+
+
+class BlockDiag(Case):
+    op, schema = "blockdiag", "d"
+
+    def line(self):
+        return "blockdiag %d %d %d %d %s %s %s %s %s %s %s" % (self.nr, self.nc, len(self.bnr), self.ncres, il(self.pr), il(self.pc), il(self.bnr), il(self.bnc),
+                                                               il(self.br), il(self.bc), fl(flat(self.M)))
+
+    def oracle(self, o):
+        # definition: block b, local (r, c) -> mat[perm_r[block_r[b] + r]][perm_c[block_c[b] + c]], packed with row stride block_nc[b]
+        e = [-77.0] * (self.ncres * self.nr)
+        for b in range(len(self.bnr)):
+            for r in range(self.bnr[b]):
+                for c in range(self.bnc[b]):
+                    e[self.ncres * self.br[b] + r * self.bnc[b] + c] = self.M[self.pr[self.br[b] + r]][self.pc[self.bc[b] + c]]
+        f = [] if [hx(x) for x in e] == [hx(x) for x in o[0]] else [("mju_blockDiag extracts the permuted diagonal blocks", e, o[0])]
+        # independent: the blocks are the ones the matrix was assembled from
+        for b in range(len(self.bnr)):
+            got = [o[0][self.ncres * self.br[b] + r * self.bnc[b] + c] for r in range(self.bnr[b]) for c in range(self.bnc[b])]
+            if [hx(x) for x in got] != [hx(x) for x in flat(self.blocks[b])]:
+                f.append(("mju_blockDiag recovers block %d of the permuted block-diagonal matrix" % b, flat(self.blocks[b]), got))
+                break
+        return f
+
+
+class BlockDiagSp(Case):
+    op, schema = "blockdiagsp", "iiidd"
+
+    def line(self):
+        return "blockdiagsp %s %d %s %s %s %s" % (self.S.text(), len(self.br), il(self.pr), il(self.pcf), il(self.br), il(self.bc))
+
+    def oracle(self, o):
+        nnz, adr, col, val, val2 = o
+        nr = self.S.nr
+        f = []
+        if adr != [sum(nnz[:r]) for r in range(nr)]:
+            return [("mju_blockDiagSparse: compact rowadr", None, adr)]
+        rows = rows_from_arrays(nr, nnz, adr, col, val)
+        k = 0
+        for b, B in enumerate(self.blocks):
+            for r, brow in enumerate(B):
+                want = sorted((c, v) for c, v in enumerate(brow) if v != 0)
+                if sorted(rows[k]) != want:
+                    f.append(("mju_blockDiagSparse: row %d of block %d with block-local columns" % (r, b), want, rows[k]))
+                    return f
+                k += 1
+        if [hx(2 * x) for x in val] != [hx(x) for x in val2]:
+            f.append(("mju_blockDiagSparse: second value array follows the first", None, None))
+        return f
+
+
+class Maps(Case):
+    op, schema = "maps", "i"
+
+    def line(self):
+        return "maps %s %s" % (self.R.text(), self.S.text())
+
+    def oracle(self, o):
+        mp = o[0]
+        for r in range(self.R.nr):
+            for k in range(self.R.rownnz[r]):
+                a = self.R.rowadr[r] + k
+                j = mp[a]
+                if not (self.S.rowadr[r] <= j < self.S.rowadr[r] + self.S.rownnz[r]) or self.S.colind[j] != self.R.colind[a]:
+                    return [("mju_sparseMap: map[k] is the address in src of the same (row, column)", (r, self.R.colind[a]), j)]
+        return []
+
+
+class SymMap(Case):
+    op, schema = "symmap", "i"
+
+    def line(self):
+        return "symmap %s %s" % (self.R.text(), self.S.text())
+
+    def oracle(self, o):
+        mp = o[0]
+        low = {(r, c): self.S.rowadr[r] + k for r in range(self.S.nr) for k, c in enumerate(self.S.colind[self.S.rowadr[r]:self.S.rowadr[r] + self.S.rownnz[r]]) if c <= r}
+        for r in range(self.R.nr):
+            for k in range(self.R.rownnz[r]):
+                a = self.R.rowadr[r] + k
+                c = self.R.colind[a]
+                want = low.get((max(r, c), min(r, c)), -1)
+                if mp[a] != want:
+                    return [("mju_lower2SymMap: map of res(r,c) is the address of src(max,min) or -1", {"rc": (r, c), "want": want}, mp[a])]
+        return []
+
+
+class CholSym(Case):
+    op, schema = "cholsym", "iiiiidii"
+
+    def line(self):
+        return "cholsym %s %s" % (self.S.text(), hx(1e-12))
+
+    def oracle(self, o):
+        n = self.S.nr
+        H = self.S.dense()
+        L = rowsof(o[5], n, n)
+        f = []
+        if o[0] != [n]:
+            f.append(("mju_cholFactorNumeric: full rank on a positive definite matrix", n, o[0]))
+        if any(L[i][j] != 0 for i in range(n) for j in range(i + 1, n)):
+            f.append(("mju_cholFactorSymbolic/Numeric: factor is lower triangular", None, None))
+        LtL = matmul(transp(L, n, n), L)
+        if not close(flat(LtL), flat(H), OTOL):
+            f.append(("mju_cholFactorSymbolic/Numeric: L' L = H (fill-in included)", flat(H), flat(LtL)))
+        # symbolic pattern = pattern of the exact reverse Cholesky factor (elimination fill-in), computed independently
+        pat = [[H[i][j] != 0 for j in range(n)] for i in range(n)]
+        for r in range(n - 1, -1, -1):
+            cs = [c for c in range(r) if pat[r][c]]
+            for x in cs:
+                for y in cs:
+                    pat[x][y] = True
+        want_nnz = [1 + sum(1 for c in range(r) if pat[r][c]) for r in range(n)]
+        if o[2] != want_nnz or o[1] != [sum(want_nnz)]:
+            f.append(("mju_cholFactorSymbolic: row counts = elimination fill-in pattern", want_nnz, o[2]))
+        if o[6] != [1]:
+            f.append(("mju_cholFactorSymbolic: LT structure / LT_map is the transpose of L", 1, o[6]))
+        return f
+
+
 def band_split(flatb, nt, nb, nd):
     ns = nt - nd
     return rowsof(flatb[:ns * nb], ns, nb), rowsof(flatb[ns * nb:], nd, nt)
@@ -1171,6 +1378,68 @@ def gen_cases(rng, tier):
         nr, nc = rng.randrange(1, 8), rng.randrange(1, 8)
         S = rand_csr(rng, nr, nc, layout="compact", sort=True, kind="u")
         cs.append(SqrSparse(S=S, dg=[rng.uniform(0.2, 2) for _ in range(nr)], usediag=rng.randrange(2)))
+    # ---- merge-type routines with packed blocks / chains: identical patterns, nested, disjoint, empty; nrow 1..6
+    for _ in range((24 if T == 1 else 30 * T)):
+        n = rng.randrange(1, 12)
+        di = sorted(rng.sample(range(n), rng.randrange(0, n + 1)))
+        mode = rng.random()
+        if mode < 0.35:
+            si = list(di)                                       # identical index vectors (fast path)
+        elif mode < 0.5:
+            si = sorted(rng.sample(di, rng.randrange(0, len(di) + 1))) if di else []   # subset
+        else:
+            si = sorted(rng.sample(range(n), rng.randrange(0, n + 1)))
+        nrow = rng.choice([1, 2, 3, 3, 6])
+        cs.append(AddToSparseMat(n=n, nrow=nrow, scl=rng.choice([1.0, -1.0, rng.uniform(-2, 2)]), di=di, si=si,
+                                 D=[rvals(rng, len(di), "u") for _k in range(nrow)], Sv=[rvals(rng, len(si), "u") for _k in range(nrow)]))
+        cs.append(AddChains(n=n, c1=di, c2=si))
+        cs.append(Inc(a=rng.choice([1.0, rng.uniform(-2, 2)]), b=rng.uniform(-2, 2), n=n, di=di, dv=rvals(rng, len(di), "u"), si=si, sv=rvals(rng, len(si), "u")))
+    for _ in range((6 if T == 1 else 8 * T)):
+        nr, nc = rng.randrange(1, 8), rng.randrange(1, 10)
+        S = rand_csr(rng, nr, nc)
+        cs.append(CopyZero(S=S, init=rvals(rng, len(S.val), "i"), sel=rng.sample(range(nr), rng.randrange(0, nr + 1))))
+        # sparseMap / lower2SymMap: res pattern inside src pattern, sorted columns
+        src = rand_csr(rng, nr, nc, sort=True, kind="u")
+        res_rows = [[e for e in r if rng.random() < 0.6] for r in src.rows]
+        cs.append(Maps(R=CSR(res_rows, nc, rng, rng.choice(["compact", "gaps"])), S=src))
+        n = rng.randrange(1, 8)
+        low = rand_csr(rng, n, n, sort=True, lower=True, diag_last=True, kind="u", layout="compact")
+        full_rows = [sorted(set([c for c, _ in low.rows[i]] + [j for j in range(n) if any(c == i for c, _ in low.rows[j])])) for i in range(n)]
+        if rng.random() < 0.5:      # res may have extra entries without a source
+            full_rows = [sorted(set(r) | set(c for c in range(n) if rng.random() < 0.2)) for r in full_rows]
+        cs.append(SymMap(R=CSR([[(c, 0.0) for c in r] for r in full_rows], n, rng, "compact"), S=low))
+    for _ in range((6 if T == 1 else 8 * T)):
+        # permuted block-diagonal matrices, dense and sparse
+        nb = rng.randrange(1, 4)
+        bnr = [rng.randrange(1, 4) for _k in range(nb)]
+        bnc = [rng.randrange(1, 4) for _k in range(nb)]
+        nr, nc = sum(bnr), sum(bnc)
+        br = [sum(bnr[:b]) for b in range(nb)]
+        bc = [sum(bnc[:b]) for b in range(nb)]
+        blocks = [[[rng.choice([0.0, rnz(rng), rnz(rng)]) for _c in range(bnc[b])] for _r in range(bnr[b])] for b in range(nb)]
+        pr = list(range(nr)); rng.shuffle(pr)       # block row k lives in row pr[k] of mat
+        pc = list(range(nc)); rng.shuffle(pc)       # block column k lives in column pc[k] of mat
+        M = [[0.0] * nc for _k in range(nr)]
+        for b in range(nb):
+            for r in range(bnr[b]):
+                for c in range(bnc[b]):
+                    M[pr[br[b] + r]][pc[bc[b] + c]] = blocks[b][r][c]
+        cs.append(BlockDiag(nr=nr, nc=nc, ncres=max(bnc), pr=pr, pc=pc, bnr=bnr, bnc=bnc, br=br, bc=bc, M=M, blocks=blocks))
+        pcf = [0] * nc
+        for k, c in enumerate(pc):
+            pcf[c] = k                               # forward permutation: column of mat -> block column
+        rows = [[(c, v) for c, v in enumerate(M[r]) if v != 0] for r in range(nr)]
+        cs.append(BlockDiagSp(S=CSR(rows, nc, rng, rng.choice(["compact", "gaps", "permuted"])), pr=pr, pcf=pcf, br=br, bc=bc, blocks=blocks))
+    for _ in range((6 if T == 1 else 8 * T)):
+        n = rng.randrange(1, 10)
+        A = rspd(rng, n, 1.0)
+        dens = rng.choice([0.15, 0.4, 1.0])
+        for i in range(n):
+            for j in range(i):
+                if rng.random() > dens:
+                    A[i][j] = A[j][i] = 0.0
+            A[i][i] += n
+        cs.append(CholSym(S=CSR([[(j, A[i][j]) for j in range(n) if A[i][j] != 0] for i in range(n)], n, rng, "compact")))
     # band
     for _ in range(25 * T):
         nt = rng.randrange(1, 10)
@@ -1382,6 +1651,16 @@ Definition chk (c : Z * (csr float * list (list Z) * list (list float)) * (list 
     nzq (c_nnz R) (li oi 0) && nzq (c_adr R) (li oi 1) && nzq (map fst (c_ent R)) (li oi 2) && fex (map snd (c_ent R)) (lf ofl 0) &&
     (if (gi ia 0 2 =? 1)%Z then nzq (transposeSparse_super (gn ia 0 0) (gn ia 0 1) Sm) (li oi 3) else true)
   else if (op =? 19)%Z then nzq (superSparse (gn ia 0 0) Sm) (li oi 0)
+  else if (op =? 20)%Z then
+    let nrow := gn ia 0 0 in let di := zn (li ia 1) in let si := zn (li ia 2) in
+    let '(ind, rws) := addToSparseMat (g0 fa 0) di si (rowsOf nrow (length di) (lf fa 1)) (rowsOf nrow (length si) (lf fa 2)) in
+    (Z.of_nat (length ind) =? gi ia 3 0)%Z && nzq ind (li ia 4) && fclose_list tol (concat rws) (lf fa 3)
+  else if (op =? 21)%Z then
+    nzq (addChains (T := float) (zn (li ia 0)) (zn (li ia 1))) (li ia 2) && nzq (addChains (T := float) (zn (li ia 0)) (zn (li ia 1))) (li ia 3)
+  else if (op =? 22)%Z then
+    let src := combine (zn (li ia 0)) (lf fa 0) in
+    fclose_list tol (combineSparseInc (nth 0 (lf fa 1) 0%float) (nth 1 (lf fa 1) 0%float) (c_ent Sm) src) (lf fa 2) &&
+    fclose_list tol (addToSclSparseInc (nth 1 (lf fa 1) 0%float) (c_ent Sm) src) (lf fa 3)
   else if (op =? 9)%Z then
     let n := gn ia 0 0 in
     let M0 := rowsOf n n (lf fa 1) in
@@ -1422,7 +1701,7 @@ Definition chk (c : Z * (csr float * list (list Z) * list (list float)) * (list 
 
 def run(ctx):
     rng = ctx.rng
-    ctx.coq_props(allowed_axioms=F.STD_AXIOMS, extra_targets=["Lib/NumF.vo", "Model/Sparse.vo", "Model/SparseSuper.vo", "Model/Chol.vo"])
+    ctx.coq_props(allowed_axioms=F.STD_AXIOMS, extra_targets=["Lib/NumF.vo", "Model/Sparse.vo", "Model/SparseSuper.vo", "Model/SparseExtra.vo", "Model/Chol.vo"])
     builds = [("scalar", ctx.driver("c23_linalg", ["c23_linalg.c"])),
               ("avx", ctx.driver("c23_linalg_avx", ["c23_linalg.c"], extra=("-mavx", "-DmjUSEPLATFORMSIMD")))]
     if any(e is None for _, e in builds):
@@ -1466,7 +1745,7 @@ def run(ctx):
                     coq_cases.append(cc)
                     coq_src.append((bname, k))
             stats[c.op] = stats.get(c.op, 0) + 1
-    imports = ("From Coq Require Import ZArith List Bool PrimFloat.\nFrom MJV Require Import Lib.Num Lib.NumF Model.Sparse Model.SparseSuper Model.Chol.\n"
+    imports = ("From Coq Require Import ZArith List Bool PrimFloat.\nFrom MJV Require Import Lib.Num Lib.NumF Model.Sparse Model.SparseSuper Model.SparseExtra Model.Chol.\n"
                "Import ListNotations.\nOpen Scope Z_scope.")
     bad = ctx.coq_eval("c23", imports, coq_cases, "chk", shard=250, pre=COQ_PRE)
     seen = set()
